@@ -346,3 +346,127 @@ func firstStrings(s []string, n int) []string {
 	}
 	return s
 }
+
+// Level equivalence (differential): with one package, one interface and one configs entry, a setting written at
+// the top level, on the package, on the interface or on the configs entry is the most specific setting for that
+// mock in all four cases, so the generated file must be byte-identical. Uses the real built-in templates and
+// their own template-data keys, replace-type and the per-mock / per-file parameters.
+func c08levelEquivalence(c *core.Ctx) (runs, agreed int) {
+	P := core.ModPath + "/p"
+	files := map[string]string{
+		"p/x.go":     "package p\n\nimport \"example.com/m/rt1\"\n\ntype S interface {\n\tA(r rt1.R, v ...int) (rt1.R, error)\n\tB() rt1.RI\n\tC(s string)\n}\n",
+		"rt1/rt1.go": "package rt1\n\ntype R struct{ N int }\n\ntype RI interface{ Foo() int }\n",
+		"rt2/rt2.go": "package rt2\n\ntype R2 struct{ N int }\n\ntype RI2 interface{ Foo() int }\n",
+	}
+	type setting struct {
+		name string
+		tmpl string // "" = both
+		key  string
+		val  any
+	}
+	rt := core.M{core.ModPath + "/rt1": core.M{"R": core.M{"pkg-path": core.ModPath + "/rt2", "type-name": "R2"}, "RI": core.M{"pkg-path": core.ModPath + "/rt2", "type-name": "RI2"}}}
+	settings := []setting{
+		{"template-data unroll-variadic=false", "testify", "template-data", core.M{"unroll-variadic": false}},
+		{"template-data unroll-variadic=true", "testify", "template-data", core.M{"unroll-variadic": true}},
+		{"template-data skip-ensure", "matryer", "template-data", core.M{"skip-ensure": true}},
+		{"template-data stub-impl", "matryer", "template-data", core.M{"stub-impl": true}},
+		{"template-data with-resets", "matryer", "template-data", core.M{"with-resets": true}},
+		{"template-data skip-ensure+stub-impl+with-resets", "matryer", "template-data", core.M{"skip-ensure": true, "stub-impl": true, "with-resets": true}},
+		{"replace-type (two types of one package)", "", "replace-type", rt},
+		{"structname", "", "structname", "Double{{.InterfaceName}}"},
+		{"pkgname", "", "pkgname", "doubles"},
+		{"formatter gofmt", "", "formatter", "gofmt"},
+		{"formatter goimports", "", "formatter", "goimports"},
+	}
+	var mu sync.Mutex
+	type job struct {
+		s        setting
+		tmpl, pl string
+	}
+	var jobs []job
+	for _, s := range settings {
+		for _, t := range []string{"testify", "matryer"} {
+			if s.tmpl != "" && s.tmpl != t {
+				continue
+			}
+			for _, pl := range []string{"in-package", "separate"} {
+				jobs = append(jobs, job{s, t, pl})
+			}
+		}
+	}
+	core.ParallelFor(len(jobs), func(ji int) {
+		j := jobs[ji]
+		id := fmt.Sprintf("level equivalence: %s, template %s, %s", j.s.name, j.tmpl, j.pl)
+		var outs [4]string
+		var exits [4]int
+		var cfgs [4]string
+		for lvl := 0; lvl < 4; lvl++ {
+			// formatter noop: nothing a formatter would repair (unused or missing imports) may differ either
+			root := core.M{"log-level": "error", "template": j.tmpl, "formatter": "noop", "force-file-write": true, "filename": "mocks_gen_test.go", "dir": "{{.InterfaceDir}}"}
+			if j.pl == "separate" {
+				root["dir"], root["pkgname"], root["filename"] = "mocks", "mocks", "mocks.go"
+			}
+			pc, ic, cc := core.M{}, core.M{}, core.M{}
+			[]core.M{root, pc, ic, cc}[lvl][j.s.key] = j.s.val
+			root["packages"] = core.M{P: core.M{"config": pc, "interfaces": core.M{"S": core.M{"config": ic, "configs": []any{cc}}}}}
+			cfgs[lvl] = core.YAML(root)
+			m, err := c.NewModule(fmt.Sprintf("c08lvl-%d-%d", ji, lvl), mergeFiles(files, map[string]string{".mockery.yml": cfgs[lvl]}))
+			if err != nil {
+				c.Harness("%v", err)
+				return
+			}
+			before := core.Snapshot(m.Dir)
+			r := c.RunMockery(m.Dir, nil)
+			c.Ev.Add("transitions", 1)
+			if core.ResourceFailure(r) {
+				m.Remove()
+				c.Skip("%s: run gave up for lack of resources", id)
+				return
+			}
+			after := core.Snapshot(m.Dir)
+			added, _, _ := core.DiffSnapshots(before, after)
+			var parts []string
+			for _, a := range added {
+				if after[a] != "dir" {
+					txt, _ := m.Read(a)
+					parts = append(parts, "== "+a+"\n"+txt)
+				}
+			}
+			m.Remove()
+			outs[lvl], exits[lvl] = strings.Join(parts, "\n"), r.Exit
+			if r.Panicked() {
+				exits[lvl] = -1
+			}
+		}
+		mu.Lock()
+		runs++
+		mu.Unlock()
+		c.Ev.Distinct("states", id)
+		names := []string{"top level", "package", "interface", "configs entry"}
+		for lvl := 1; lvl < 4; lvl++ {
+			if exits[lvl] != exits[0] || outs[lvl] != outs[0] {
+				c.Report("level-equivalence:"+id+":"+names[lvl], fmt.Sprintf("%s: written at the %s level the run exits %d and produces different output than written at the top level (exit %d): %s", id, names[lvl], exits[lvl], exits[0], firstDiffLine(outs[0], outs[lvl])),
+					map[string]any{"scenario": id, "config_top_level": cfgs[0], "config_" + strings.ReplaceAll(names[lvl], " ", "_"): cfgs[lvl]})
+				return
+			}
+		}
+		if exits[0] != 0 || outs[0] == "" {
+			c.Report("level-equivalence-generate:"+id, fmt.Sprintf("%s: mockery exits %d / writes nothing for a valid configuration", id, exits[0]), map[string]any{"scenario": id, "config": cfgs[0]})
+			return
+		}
+		mu.Lock()
+		agreed++
+		mu.Unlock()
+	})
+	return runs, agreed
+}
+
+func firstDiffLine(a, b string) string {
+	la, lb := strings.Split(a, "\n"), strings.Split(b, "\n")
+	for i := 0; i < len(la) && i < len(lb); i++ {
+		if la[i] != lb[i] {
+			return fmt.Sprintf("first difference at line %d: %q vs %q", i+1, firstN(la[i], 120), firstN(lb[i], 120))
+		}
+	}
+	return fmt.Sprintf("outputs have %d vs %d lines", len(la), len(lb))
+}
